@@ -144,3 +144,35 @@ Proof.
   - apply no_dotdot_app_slash; [exact Hb|].
     unfold components. rewrite split_on_no_sep by exact Hm. intros [X|[]]. congruence.
 Qed.
+
+(* the real part of a virtual selector and the target of the type rewriter are
+   substrings of a secure selector, hence secure and confined themselves *)
+Lemma virtual_real_secure s : is_secure s = true -> is_secure (fst (virtual_split s)) = true.
+Proof.
+  intros H. destruct (virtual_real_is_prefix s) as [t E]. rewrite E in H.
+  apply (secure_substring_closed [] _ t). exact H.
+Qed.
+
+Lemma rewriter_target_secure s : is_secure s = true -> is_secure (rewriter_target s) = true.
+Proof.
+  intros H. destruct (rewriter_target_is_suffix s) as [a E]. rewrite E in H.
+  apply (secure_substring_closed a _ []). now rewrite app_nil_r.
+Qed.
+
+Lemma virtual_confined root s p :
+  is_secure s = true -> starts_with_slash s = true -> fst (virtual_split s) <> [] ->
+  getfspath root (fst (virtual_split s)) = Some p -> inside root p = true.
+Proof.
+  intros H S N G. apply (secure_confined root (fst (virtual_split s)) p); auto.
+  - now apply virtual_real_secure.
+  - now apply virtual_real_starts_slash.
+Qed.
+
+Lemma rewriter_confined root s p :
+  is_secure s = true -> rewriter_accepts s = true ->
+  getfspath root (rewriter_target s) = Some p -> inside root p = true.
+Proof.
+  intros H A G. apply (secure_confined root (rewriter_target s) p); auto.
+  - now apply rewriter_target_secure.
+  - now apply rewriter_target_starts_slash.
+Qed.
